@@ -111,7 +111,7 @@ class Put(Contract):
     def post(self, s0, s, a, r):
         t0 = qt(s0)
         return {
-            "C03|appended-at-the-tail": z3.And(qt(s) == t0 + 1, qarr(s) == z3.Store(qarr(s0), t0, a.trigger_data.e)),
+            "C03,C06|every-put-appends-exactly-this-item-at-the-tail": z3.And(qt(s) == t0 + 1, qarr(s) == z3.Store(qarr(s0), t0, a.trigger_data.e)),
             "others-kept": z3.And(others_kept("deque.arr", s0, s, W.Q), others_kept("deque.tail", s0, s, W.Q)),
         }
 
@@ -467,4 +467,46 @@ class EventGet(Contract):
             "C13|on-an-instance-a-bound-event-of-the-same-id-bound-to-it": z3.Implies(inst != NONE, z3.And(
                 r.e >= s0["ghost.alloc"], s.sel("Event.id", r) == s0.sel("Event.id", a.self.e),
                 s.sel("Event.name", r) == s0.sel("Event.name", a.self.e), s.sel("Event._sm", r) == inst)),
+        }
+
+
+# =========================================================================== BaseEngine.__init__
+def _proxy(ex, path, ca, node):
+    """weakref.proxy(x): transparent while the referent is alive (DESIGN 2.3)."""
+    return [(path, ca.pos[0])]
+
+
+from pyvc.execu import BUILTINS  # noqa: E402
+BUILTINS["proxy"] = _proxy
+GLOBAL_NAMES["proxy"] = Py(("builtin", "proxy"))
+
+
+def _object_ctor(ex, path, ca, node):
+    return [(path, path.alloc("object", "obj"))]
+
+
+CLASSES["object"].ctor = _object_ctor
+GLOBAL_NAMES["object"] = Py(("class", "object"))
+
+
+@register
+class EngineInit(Contract):
+    """BaseEngine.__init__ (C06, C16): every engine gets its OWN queue, lock and sentinel — nothing is
+    shared between machines."""
+
+    qualnames = [BASE + "__init__"]
+    params = [("self", "BaseEngine"), ("sm", "StateMachine"), ("rtc", "bool")]
+    returns = "None"
+    modifies = ["Engine.sm", "Engine._external_queue", "Engine._sentinel", "Engine._rtc", "Engine._processing",
+                "deque.head+", "deque.tail+", "deque.arr+", "Lock.locked+"]
+    properties = ["C06", "C16", "C03"]
+
+    def post(self, s0, s, a, r):
+        me = a.self.e
+        al0 = s0["ghost.alloc"]
+        q, lk, se = s.sel("Engine._external_queue", me), s.sel("Engine._processing", me), s.sel("Engine._sentinel", me)
+        return {
+            "C06,C16|own-fresh-queue-lock-and-sentinel": z3.And(q >= al0, lk >= al0, se >= al0, z3.Distinct(q, lk, se)),
+            "C03,C06|queue-empty-lock-free": z3.And(s.sel("deque.head", q) == s.sel("deque.tail", q), z3.Not(s.sel("Lock.locked", lk))),
+            "options-stored": z3.And(s.sel("Engine.sm", me) == a.sm.e, s.sel("Engine._rtc", me) == a.rtc.e),
         }
